@@ -90,10 +90,10 @@ def run(tier):
     ck = core.Check(PID, tier)
     build.build_lib('tsan')
     binary = build.build_named_driver('tsan', 'thr_stress')
-    nproc = 48 if tier == 'quick' else 3000
-    items = 30 if tier == 'quick' else 120
+    nproc = 40 if tier == 'quick' else 3000
+    items = 24 if tier == 'quick' else 120
     supp, suppressed_roots = suppression_file(ck)
-    npinned = 3          # processes that run without suppressions (they re-observe the known findings)
+    npinned = 5          # processes that run without suppressions (they re-observe the known findings)
     stats = collections.Counter()
     reports = collections.Counter()
     overlap_by_focus = collections.Counter()
